@@ -147,6 +147,10 @@ static inline void %(s)s_assign_move(%(s)s *s, %(s)s *o) { %(s)s t; %(s)s_move(&
             return out
         raise ExtractionBreak("tracked std::vector: element type %s" % t.key())
 
+    def is_tracked(self, canon):
+        o = self.tr.opts
+        return bool(o.get("tracked_vec")) and (canon.startswith("std::vector<") or (bool(o.get("tracked_str")) and self.is_string(canon)))
+
     def ensure_tvec(self, canon):
         """value-tracking std::vector model: {b, n, cap} with b one heap block of cap elements, n <= cap.  Operations that do
         not reallocate are CODE; reallocation is an ASSUMED contract that preserves the elements at the ghost indices
@@ -191,6 +195,12 @@ static inline void %(s)s_resize(%(s)s *v, unsigned long n) { if (n <= v->n) { v-
         self.contracts[s + "_grow_to"] = ("void %s_grow_to(%s *v, unsigned long n" + SN + ")\n__CPROVER_requires(__CPROVER_rw_ok(v, sizeof(*v)) && n > v->n && n <= %s)\n"
             "__CPROVER_ensures(v->cap >= n && v->cap <= %s && v->n == n)\n__CPROVER_ensures(%s)\n%s\n__CPROVER_assigns(*v)\n__CPROVER_frees(v->b)") % (
             s, s, MAXSZ, MAXSZ, FRESH, "\n".join("__CPROVER_ensures(%s)" % e for e in preserved() + zeroed()))
+        NEL = "((unsigned long)(__CPROVER_POINTER_OFFSET(last) - __CPROVER_POINTER_OFFSET(first)) / sizeof(%s))" % T
+        self.contracts[s + "_from_range"] = ("void %s_from_range(%s *v, %s *first, %s *last)\n__CPROVER_requires(__CPROVER_rw_ok(v, sizeof(*v)))\n"
+            "__CPROVER_requires(first == last || (__CPROVER_same_object(first, last) && __CPROVER_POINTER_OFFSET(first) <= __CPROVER_POINTER_OFFSET(last) && __CPROVER_r_ok(first, %s * sizeof(%s))))\n"
+            "__CPROVER_ensures(v->n == (first == last ? 0ul : %s) && v->cap >= v->n && v->cap <= %s)\n__CPROVER_ensures((v->cap == 0 && v->b == 0) || (v->cap > 0 && %s))\n%s\n__CPROVER_assigns(*v)") % (
+            s, s, T, T, NEL, T, NEL, MAXSZ, FRESH,
+            "\n".join("__CPROVER_ensures(IMP(%s < v->n, %s))" % (G, " && ".join("v->b[%s]%s == first[%s]%s" % (G, f, G, f) for f in flat)) for G in self.GHOSTS))
         tr.opts.setdefault("stub_may_throw", [])
         tr.opts["stub_may_throw"] = list(tr.opts["stub_may_throw"]) + [n for n in (s + "_at", s + "_resize") if n not in tr.opts["stub_may_throw"]]
         self.model_deps = getattr(self, "model_deps", {})
@@ -201,7 +211,7 @@ static inline void %(s)s_resize(%(s)s *v, unsigned long n) { if (n <= v->n) { v-
 
     def ensure_vec(self, canon):
         tr = self.tr
-        if tr.opts.get("tracked_vec") and canon.startswith("std::vector<"):
+        if self.is_tracked(canon):
             return self.ensure_tvec(canon)
         s = tr.need_record(canon)
         if s in self.text:
@@ -288,6 +298,9 @@ static inline void %(s)s_dtor(%(s)s *v) { if (v->b) free(v->b); v->b = 0; v->n =
                     return [X("expr", X("assign", "=", deref(ptr), tr.lv(nonalloc[0]))), X("expr", X("call", s + "_init", [tr.bind_ref(nonalloc[0])]))]
                 self.use_contract(s + "_assign_copy")
                 return init + [X("expr", X("call", s + "_assign_copy", [ptr, tr.bind_ref(nonalloc[0])]))]
+            if len(nonalloc) == 2 and self.is_tracked(canon):
+                self.use_contract(s + "_from_range")
+                return init + [X("expr", X("call", s + "_from_range", [ptr, tr.rv(nonalloc[0]), tr.rv(nonalloc[1])]))]
             if len(nonalloc) == 2:
                 self.use_contract(s + "_assign_range")
                 return init + [X("expr", X("call", s + "_assign_range", [ptr, tr.rv(nonalloc[0]), tr.rv(nonalloc[1])]))]
@@ -540,7 +553,7 @@ static inline void verif_lock_guard_dtor(std_lock_guard_std_mutex *g) { g->m->g_
                 return X("bin", "+", X("mem", o, "b"), X("mem", o, "n"), ty=Ty("ptr", to=T))
             if m == "operator[]":
                 return X("index", X("mem", o, "b"), tr.rv(args[0]), ty=T)
-            tracked = bool(tr.opts.get("tracked_vec")) and canon.startswith("std::vector<")
+            tracked = self.is_tracked(canon)
             if m == "back":
                 return X("index", X("mem", o, "b"), X("bin", "-", X("mem", o, "n"), X("lit", "1ul")), ty=T)
             if m == "front":
@@ -685,6 +698,8 @@ static inline void verif_lock_guard_dtor(std_lock_guard_std_mutex *g) { g->m->g_
         base = q[5:] if q.startswith("std::") else q
         if base in ("find_if", "stable_partition", "partition") and len(args) == 3:
             return self.algorithm(base, args, ps)
+        if base in ("mismatch", "equal") and len(args) == 3:
+            return self.algorithm2(base, args, rets)
         if base == "make_pair" and len(args) == 2:
             rt = parse_type(rets)
             tr.need_record(rt.name)
@@ -812,6 +827,59 @@ static %(T)s *%(name)s(%(T)s *first, %(T)s *last, %(CL)s pred)
         tr.assume("std::%s" % base, "reference model as C code over a pointer range (lib/stdlib.py): " + {"find_if": "first element satisfying the predicate, else last", "stable_partition": "elements satisfying the predicate first, both groups in their original order (buffer-based)", "partition": "libstdc++'s bidirectional-iterator algorithm (swap from both ends)"}[base])
         cl = tr.lv(args[2]) if tr.is_glvalue(args[2]) else tr.rv(args[2])
         return X("call", name, [tr.rv(args[0]), tr.rv(args[1]), cl], ty=it)
+
+    def algorithm2(self, base, args, rets):
+        """std::mismatch / std::equal over two pointer ranges of scalars (operator== on the elements): reference models as C
+        code with their own loop contracts (facts at the ghost index verif_gi); the position where the scan stopped is
+        recorded in the ghost verif_mm (a witness for 'the ranges differ')."""
+        tr = self.tr
+        its = []
+        for a in args:
+            it = tr.lower(tr.ety(a).noref())
+            if it.kind != "ptr" or it.to.kind != "builtin":
+                raise ExtractionBreak("std::%s over %s" % (base, it.key()))
+            its.append(it)
+        T1, T2 = tr.ctype(its[0].to), tr.ctype(its[2].to)
+        rt = parse_type(rets)
+        name = "verif_%s__%s__%s" % (base, sanitize(T1), sanitize(T2))
+        inv = ("    __CPROVER_assigns(f1, f2)\n"
+               "    __CPROVER_loop_invariant(f1 == l1 || (__CPROVER_same_object(f1, l1) && __CPROVER_same_object(f1, verif_a0) && __CPROVER_POINTER_OFFSET(verif_a0) <= __CPROVER_POINTER_OFFSET(f1) && __CPROVER_POINTER_OFFSET(f1) <= __CPROVER_POINTER_OFFSET(l1)))\n"
+               "    __CPROVER_loop_invariant((f1 == verif_a0 && f2 == verif_b0) || (__CPROVER_same_object(f2, verif_b0) && __CPROVER_POINTER_OFFSET(f2) - __CPROVER_POINTER_OFFSET(verif_b0) == __CPROVER_POINTER_OFFSET(f1) - __CPROVER_POINTER_OFFSET(verif_a0)))\n"
+               "    __CPROVER_loop_invariant(IMP(verif_gi < (unsigned long)(__CPROVER_POINTER_OFFSET(f1) - __CPROVER_POINTER_OFFSET(verif_a0)) / sizeof(%s), verif_a0[verif_gi] == verif_b0[verif_gi]))\n"
+               "    __CPROVER_decreases(__CPROVER_POINTER_OFFSET(l1) - __CPROVER_POINTER_OFFSET(f1))") % T1
+        if T1 != "char" and sanitize(T1) not in ("char", "signed_char", "unsigned_char"):
+            inv = tr.opts.get("model_loops", {}).get(base + ":1", "")
+        if base == "mismatch":
+            R = tr.ctype(rt)
+            tr.need_record(rt.name)
+            body = """
+static %(R)s %(name)s(%(T1)s *f1, %(T1)s *l1, %(T2)s *f2)
+{
+  %(T1)s *verif_a0 = f1; %(T2)s *verif_b0 = f2;
+  while (f1 != l1 && *f1 == *f2)
+%(inv)s
+  { ++f1; ++f2; }
+  verif_mm = f1 == verif_a0 ? 0ul : (unsigned long)(f1 - verif_a0);
+  %(R)s r; r.first = f1; r.second = f2; return r;
+}
+""" % dict(R=R, name=name, T1=T1, T2=T2, inv=inv)
+        else:
+            body = """
+static _Bool %(name)s(%(T1)s *f1, %(T1)s *l1, %(T2)s *f2)
+{
+  %(T1)s *verif_a0 = f1; %(T2)s *verif_b0 = f2;
+  for (; f1 != l1; ++f1, ++f2)
+%(inv)s
+  { if (!(*f1 == *f2)) { verif_mm = f1 == verif_a0 ? 0ul : (unsigned long)(f1 - verif_a0); return 0; } }
+  verif_mm = f1 == verif_a0 ? 0ul : (unsigned long)(f1 - verif_a0);
+  return 1;
+}
+""" % dict(name=name, T1=T1, T2=T2, inv=inv)
+        self.text.setdefault("algo:" + name, body)
+        tr.cur.calls[name] = True
+        tr.rule("std::%s model" % base)
+        tr.assume("std::%s" % base, "reference model as C code over two pointer ranges (lib/stdlib.py): scans while the elements are equal; the stop position is recorded in the ghost verif_mm")
+        return X("call", name, [tr.rv(a) for a in args], ty=tr.lower(rt))
 
     def ptrdiff(self, a, b):
         """iterator difference a - b; equal iterators (incl. the null begin()/end() of an empty vector) give 0 as in C++"""
